@@ -42,7 +42,11 @@ def run(ctx):
     RC20.buffer_rules(ctx, None, None, "R20.f")
     from . import C20 as _RC20
     _RC20.api_effects(ctx, "R04.l", which=("add",))
-    return info("R04.l: add_record really adds the record to the addressed store on every call (the registry API is not exercised by the repository's tests). Necessary constants for single-typo tolerance at the n=5 worst cases: length gate accepts 1-5/6, "
+    from . import r_rank as _RR
+    _RR.filter_passes(ctx, "R04.m", "one-match-passes", 1, 1, 1, "a hit with one matched word for a one-word query", "typing a prefix of a function word ('th' for 'the') finds nothing")
+    from . import r_join as _RJ
+    _RJ.plain_attempt_unguarded(ctx, "R04.n")
+    return info("R04.n: the word-to-word alternative of text_match calls word_match on every path (no pre-test in front of the gates). R04.m: a hit with one matched word for a one-word query passes hit_matches whatever the match looks like (abstract run). R04.l: add_record really adds the record to the addressed store on every call (the registry API is not exercised by the repository's tests). Necessary constants for single-typo tolerance at the n=5 worst cases: length gate accepts 1-5/6, "
                 "Jaccard gate accepts 1/2, the DL gate accepts c/5 for every edit-cost constant c, every cost <= 1.0, "
                 "gate shapes (1-min/max, dist/max) are confirmed before the bounds are applied, and the prefix-pair "
                 "tolerance admits a length difference of one.")
